@@ -67,8 +67,9 @@ def stimuli(tier, seed, ctx):
         restored = num() if rnd.random() < 0.4 else None
         evs = []
         for _ in range(rnd.randint(1, 8) if rnd.random() < 0.5 else rnd.randint(9, 40)):
-            ev = rnd.choice(['inc', 'dec', 'put', 'reset', 'inc1', 'dec1', 'putmissing'])
-            evs.append([ev, num() if ev in ('inc', 'dec', 'put') else 0])
+            # resetv: a reset carrying data items it has no use for (as sent by an on_output event)
+            ev = rnd.choice(['inc', 'dec', 'put', 'reset', 'resetv', 'inc1', 'dec1', 'putmissing'])
+            evs.append([ev, num() if ev in ('inc', 'dec', 'put', 'resetv') else 0])
         out.append(_mk(mod, scale, init, evs, restored))
     # (iii) modulo = 0 is refused at construction
     out.append(_mk(0, 1, 0, []))
@@ -140,6 +141,8 @@ def execute(stim):
                 a = scale           # default amount 1
             elif ev == 'putmissing':
                 etype = 'put'
+            elif ev == 'resetv':
+                etype, kw, a = 'reset', {'value': _num(a, scale), 'previous': 0, 'trigger': 'output'}, 0
             try:
                 ret = edzed.ExtEvent(cnt, etype).send(**kw)
                 ok = True
@@ -148,7 +151,7 @@ def execute(stim):
                 if not isinstance(err, TypeError) or ev != 'putmissing':
                     ev = 'failed_' + ev
             await rt.settle(1)
-            obs({'inc1': 'inc', 'dec1': 'dec'}.get(ev, ev), a, ok, ret)
+            obs({'inc1': 'inc', 'dec1': 'dec', 'resetv': 'reset'}.get(ev, ev), a, ok, ret)
         await rt.settle(2)
         log[-1]['cerr'] = circuit.error is not None
     rt.run_circuit(build, script, storage=storage)
